@@ -69,7 +69,7 @@ impl Space for Placement {
             ps.push("inner_attribute(allow(unused))");
         }
         if vars {
-            ps.push("vars(v1: { 1 }, v2: { v1 + 1 })");
+            ps.push("vars(vz: { 1 }, va: { vz + 1 })");
         }
         // every order of the non-terminal parameters
         let perm = ctx.permutation(ps.len());
@@ -224,7 +224,7 @@ impl BCaseSpec {
         let (vars, term) = self.groups[g];
         let mut ps: Vec<String> = vec![];
         if vars {
-            ps.push("vars(v1: { logv(1, 5) }, v2: { logv(2, v1 + 1) })".into());
+            ps.push("vars(vz: { logv(1, 5) }, va: { logv(2, vz + 1) })".into());
         }
         match (g, term) {
             (0, 1) => ps.push("..sbase()".into()),
@@ -257,13 +257,13 @@ impl BCaseSpec {
         // member a uses the vars of every direction that has them
         let mut a_attrs = vec![];
         if self.groups[0].0 {
-            a_attrs.push("#[from(logv(11, ~ + v1 + v2))]".to_string());
+            a_attrs.push("#[from(logv(11, ~ + vz + va))]".to_string());
         }
         if self.groups[1].0 {
-            a_attrs.push("#[into(logv(12, ~ + v1 + v2))]".to_string());
+            a_attrs.push("#[into(logv(12, ~ + vz + va))]".to_string());
         }
         if self.groups[2].0 {
-            a_attrs.push("#[into_existing(logv(13, ~ + v1 + v2))]".to_string());
+            a_attrs.push("#[into_existing(logv(13, ~ + vz + va))]".to_string());
         } else if self.groups[1].0 {
             // into_existing would fall back to the #[into(..)] instruction, whose vars do not exist in that impl
             a_attrs.push("#[into_existing(~)]".to_string());
@@ -390,7 +390,7 @@ impl ECaseSpec {
         let (vars, ret) = self.groups[g];
         let mut ps: Vec<String> = vec![];
         if vars {
-            ps.push("vars(v1: { logv(1, 5) }, v2: { logv(2, v1 + 1) })".into());
+            ps.push("vars(vz: { logv(1, 5) }, va: { logv(2, vz + 1) })".into());
         }
         if ret {
             let v = if g == 0 { "S::B".to_string() } else { format!("{}::B", cp) };
@@ -405,8 +405,8 @@ impl ECaseSpec {
             let _ = writeln!(o, "#[{t}into({cp}{e}{})]", self.params(1, cp));
         }
         let mut a_attrs = vec![];
-        a_attrs.push(if self.groups[0].0 { "#[from(logv(11, ~.clone() + v1 + v2))]".to_string() } else { "#[from(~.clone())]".to_string() });
-        a_attrs.push(if self.groups[1].0 { "#[into(logv(12, ~.clone() + v1 + v2))]".to_string() } else { "#[into(~.clone())]".to_string() });
+        a_attrs.push(if self.groups[0].0 { "#[from(logv(11, ~.clone() + vz + va))]".to_string() } else { "#[from(~.clone())]".to_string() });
+        a_attrs.push(if self.groups[1].0 { "#[into(logv(12, ~.clone() + vz + va))]".to_string() } else { "#[into(~.clone())]".to_string() });
         if self.named {
             let _ = writeln!(o, "enum S {{ A {{ {} x: i32 }}, B }}", a_attrs.join(" "));
         } else {
@@ -453,7 +453,7 @@ impl ECaseSpec {
 
 pub fn run(tier: &str) -> i32 {
     let rep = Report::new("C08", tier, "model_checking");
-    rep.set_rule("part A (placement, structural): each of the 24 trait-instruction names x {named struct, enum with ghosts, struct with bare parent + ghosts} x every subset of {attribute, impl_attribute, inner_attribute, vars} in EVERY order x terminal {none, ..update, return} + a parameterless instruction for a second counterpart: in every impl the instruction produces (M_appl) the attribute is an outer attribute of the fn, the impl_attribute of the impl, the inner_attribute an inner attribute at the head of the fn body, each exactly once and nowhere else; impls of the other instruction carry none. Part B (behaviour through rustc + execution): per direction group {from, into, into_existing} x {vars or not} x {none, ..update, return} x {bare #[parent] member or not}, all 12 kinds: vars expressions call a logging helper - the log must be [v1, v2, member expression] (each once, in declaration order, vars first) and member expressions read v1, v2; ..base() supplies exactly the leaves no member provides; return make(M) is the whole result (*other == make(M) for into_existing); the same for an enum host (tuple / named variant): vars are evaluated once before the generated match - also when the unit variant is converted -, quick return replaces the match. states = distinct inputs / test modules");
+    rep.set_rule("part A (placement, structural): each of the 24 trait-instruction names x {named struct, enum with ghosts, struct with bare parent + ghosts} x every subset of {attribute, impl_attribute, inner_attribute, vars} in EVERY order x terminal {none, ..update, return} + a parameterless instruction for a second counterpart: in every impl the instruction produces (M_appl) the attribute is an outer attribute of the fn, the impl_attribute of the impl, the inner_attribute an inner attribute at the head of the fn body, each exactly once and nowhere else; impls of the other instruction carry none. Part B (behaviour through rustc + execution): per direction group {from, into, into_existing} x {vars or not} x {none, ..update, return} x {bare #[parent] member or not}, all 12 kinds: vars expressions call a logging helper - the log must be [vz, va, member expression] (each once, in DECLARATION order - the names are declared in non-alphabetical order -, vars first) and member expressions read both; ..base() supplies exactly the leaves no member provides; return make(M) is the whole result (*other == make(M) for into_existing); the same for an enum host (tuple / named variant): vars are evaluated once before the generated match - also when the unit variant is converted -, quick return replaces the match. states = distinct inputs / test modules");
     rep.assume("the statement's `on every impl the instruction produces` is read with M_appl; bare #[parent] is combined with vars only (its combination with ..update / return is KF-C17-01)");
     let caps = Caps::from_env(if tier == "quick" { 200.0 } else { 1200.0 });
     run_space(&Placement, None, &caps, &rep);
